@@ -64,7 +64,7 @@ def _get_laplace_matrix(bcs: BoundariesList) -> tuple[NumericArray, NumericArray
                 matrix[i, k] += v * factor
 
         else:
-            matrix[i, i - 1] = scale - scale_i
+            matrix[i, i - 1] += scale - scale_i
 
         if i == dim_r - 1:
             const, entries = bcs[0].get_sparse_matrix_data((dim_r,))
@@ -74,7 +74,7 @@ def _get_laplace_matrix(bcs: BoundariesList) -> tuple[NumericArray, NumericArray
                 matrix[i, k] += v * factor
 
         else:
-            matrix[i, i + 1] = scale + scale_i
+            matrix[i, i + 1] += scale + scale_i
 
     return matrix, vector  # type: ignore
 
